@@ -18,6 +18,7 @@ Proofs: Proofs/BuiltinBasic, BuiltinSubstring, BuiltinShift, FloatOrder, Builtin
 import EvalexprVerif.Proofs.BuiltinMeets
 import EvalexprVerif.Proofs.AgreeBuiltin
 import EvalexprVerif.Proofs.AgreeNumeric
+import EvalexprVerif.Proofs.AgreeFnBuiltin
 
 namespace Evalexpr.Spec.C10
 open Evalexpr Evalexpr.Spec
@@ -68,5 +69,23 @@ example : ¬ MixedArgs (minMaxArgs (.tuple [.float 1.5, .float 2.5])) := by
 example : ∃ e, Builtin.call .abs (.int (-9223372036854775808)) = .error e ∧ e.isPanic = false := by
   have := C10_builtin_unconditional .abs (.int (-9223372036854775808)) (by decide) (by decide) (by decide)
   exact this
+
+/-- **C10 about the code as translated on this run**: `Gen.builtin_function` is the body of `builtin_function`
+(src/function/builtin.rs) rendered by `translate_fn.py` — the dispatch on the name, every closure, the expansions of
+`simple_math!` / `int_function!`. Whatever name it resolves, the resolved closure meets the documented reference on every
+argument (under the two stated hypotheses for `len` / mixed `min` / `max`), and it resolves exactly the documented names. -/
+theorem C10_builtin_generated (id : Str) (arg : Value) (f : Value → Res Value)
+    (hf : Gen.builtin_function id = some f) :
+    ∃ b, builtinFunction id = some b ∧ f arg = b.call arg ∧
+      ((b = .len → SizeOk arg) → (b = .min ∨ b = .max → MixedArgs (minMaxArgs arg) → FloatOrderLaws) →
+        MeetsB (f arg) (refBuiltin b arg)) := by
+  have h := AgreeFn.fn_builtin_function_agree id arg
+  rw [hf] at h
+  cases hb : builtinFunction id with
+  | none => rw [hb] at h; cases h
+  | some b =>
+    rw [hb] at h
+    simp only [Option.map_some, Option.some.injEq] at h
+    exact ⟨b, rfl, h, fun h1 h2 => h ▸ C10_builtin_gen b arg h1 h2⟩
 
 end Evalexpr.Spec.C10
